@@ -678,7 +678,18 @@ func c10Worker(args []string) {
 }
 
 func c10Programs(tier string) []hprog {
-	all := histCatalogue()
+	var all []hprog
+	for _, p := range histCatalogue() {
+		observable := true
+		for _, t := range p.Tasks {
+			if t.Empty {
+				observable = false // the crash model is built from command markers alone
+			}
+		}
+		if observable {
+			all = append(all, p)
+		}
+	}
 	if tier == "thorough" {
 		// every byte of every cache write, on the whole catalogue plus the one-task programs of the small-scope family
 		var out []hprog
